@@ -19,20 +19,20 @@ CLAIMED = {
             "memory_consumption. Mode B: the same bounds checks are active on every path of the C01/C09 history shapes. Generalisation to larger N is a paper argument (DESIGN 6/C02), not a solver claim.", "6/C02"),
     'C03': ("Every __builtin_assume_aligned the library relies on (llvm.assume align bundles) becomes a proof obligation, plus explicit address%A==0 assertions for every AlignAs field on the "
             "load path, for fresh vectors (Mode A, symbolic sizes, both block-base residues; incl. 4-byte count types and packed 8-byte objects that start or end on a 4-aligned offset) and after erase/reserve/copy/move/swap (Mode B).", "6/C03"),
-    'C04': ("Order, containment, non-overlap of fields and elements, span counts and iterator.data()==reference.data_begin() asserted on numeric addresses: Mode A with symbolic sizes including 0, "
+    'C04': ("Order, containment, non-overlap of fields and elements, span counts and iterator.data()==reference.data_begin() asserted on numeric addresses: Mode A with symbolic sizes including 0 (2-3 elements; 8 elements on lists without spans), "
             "Mode B after erase/reserve.", "6/C04"),
     'C05': ("Layout clause: every field address equals an independent greedy layout (lowest suitably aligned address), data_end within [greedy end, rounded up to S]; exact memory_consumption for full "
             "vectors without VaryingSize. Footprint clause: memory_consumption and the ledger block size after reserve/copy/move/assignment/swap are bounded by max(before, source) for the allocator kinds "
             "always-equal / stateful unequal / propagating.", "6/C05"),
     'C06': ("Instrumented value type Tr (self pointer + lifetime ledger keyed by address + write bracketing): construction on live storage, use/destruction of dead objects, clobbering from outside Tr's "
-            "members and a wrong number of live objects after any step are violations; driven through the history shapes, copy/move/assign/swap, element and reference operations on the non-trivial lists N1-N3.", "6/C06"),
+            "members and a wrong number of live objects after any step are violations; driven through the history shapes, copy/move/assign/swap, element and reference operations on the non-trivial lists N1-N4, on lists of an address-sensitive trivially destructible type (Sp), and through assignments whose allocation fails (fault schedule of C17).", "6/C06"),
     'C07': ("Ledger allocator: every deallocate must name the base, size, rebound type and an equal allocator of a live block; operator new/malloc in the IR is a violation; after every scope 0 live blocks. "
             "Driven through histories, copy/move/assign/swap with always-equal, stateful and propagating allocators, and element operations.", "6/C07"),
     'C08': ("get_allocator() after copy construction / copy assignment / move assignment / swap compared with the allocator_traits rules for all 16 combinations of POCCA/POCMA/POCS/select_on_container_copy_construction, "
             "equal and unequal instances; the ledger's allocator-equality check on every deallocate decides 'never owns memory from an unequal allocator'.", "6/C08"),
     'C09': ("Two vectors with independent symbolic pre-states (different capacities, budgets, fixed sizes), one of copy ctor / copy assign / move ctor / move assign / swap / self-assign+self-swap, Inv on both "
             "against the models, then a mutation of one side (independence; the target is also filled within the capacity it reports and the byte budget it inherited) and clear / copy assignment / swap / move assignment from a vector of another allocator instance on the moved-from operand; all 11 core lists incl. trivially copyable ones, always-equal, unequal stateful and propagating allocators.", "6/C09"),
-    'C10': ("reserve(n,b) with symbolic n,b (n<=capacity and n>capacity), repeated reserve, fill to the new limits under bounds checking, contents/fixed sizes/addresses compared before and after; Mode A re-run of the "
+    'C10': ("reserve(n,b) with symbolic n,b (n<=capacity and n>capacity), repeated reserve, fill to the new limits under bounds checking, contents/fixed sizes/addresses compared before and after (incl. address-sensitive stored values that must be relocated through their constructors); Mode A re-run of the "
             "capacity lemma on a reserved vector.", "6/C10"),
     'C11': ("Write through each access path (case split over operator[], front/back, *it, it[n], it->, reference copies) and read back through all others incl. const paths and structured bindings; reference "
             "assignment (copy/move), swap, iter_swap between any two positions; iterator arithmetic/comparisons for symbolic offsets in [0,size()]; rotate/reverse/swap_ranges against the same algorithm on the model.", "6/C11"),
